@@ -239,6 +239,8 @@ class DatasetOnDisk(GetSetDelAttrMixin, NetCDFOnDisk, AbstractDataset):
 
         # first load dimensions
         for dim in dims:
+            if np.isscalar(dict_indices[dim]):
+                continue # dimension dropped by a scalar index
             data.axes.append(self.axes[dim][dict_indices[dim]])
 
         # then normal variables
